@@ -11,7 +11,7 @@ Monotonicity itself is a numerical statement about trajectories and is not decid
 """
 from ..model import AnalysisError
 from ..terms import T, walk_terms
-from ..walk import call_parts, call_arg, is_call_to, const_val, strip_views, unwrap_gamma, callee_func
+from ..walk import call_parts, call_arg, is_call_to, const_val, strip_views, unwrap_gamma, callee_func, gamma_paths, compatible, norm_stmt
 from .. import loop as LP
 from . import c01, c07, c08
 
@@ -126,9 +126,48 @@ def check_pairing(run, A):
                 if x.op == 'mu':
                     inits += [strip_views(y) for y in unwrap_gamma(x.args[0])]
         inits = [x for x in inits if x.op != 'undef']
-        ok1 = bool(inits) and all(is_call_to(x, 'numpy.ones', 'numpy.ones_like') for x in inits)
+        # (an E-step hoisted in front of the loop may supply the start value as well: the start-pairing rule below decides that case)
+        ok1 = bool(inits) and all(is_call_to(x, 'numpy.ones', 'numpy.ones_like') or (x.op == 'unpack' and (call_parts(strip_views(x.args[0]))[0] or '').endswith('predict'))
+                                  for x in inits)
         run.check(ok1, 'R-LOOP', f'{short}: first iteration uses a quadratic form of ones', fn.loc(), '', 'the start value of the quadratic form is not np.ones / np.ones_like',
                   construct=f'R-LOOP::{fn.qual}::quadratic-form-start')
+        # start of the loop (model given / not given): whenever the start affiliation is the posterior of an E-step call, the start
+        # quadratic form is the quadratic form of THAT call - a posterior of the given model combined with a quadratic form of ones
+        # is the plain weighted covariance, not the MM update relative to the given model
+        def start_paths(v):
+            v = strip_views(v)
+            alts = []
+            if v.op == 'gamma':
+                for x in unwrap_gamma(v.args[1]) + unwrap_gamma(v.args[2]):
+                    x = strip_views(x)
+                    if x.op == 'mu':
+                        alts += gamma_paths(x.args[0])
+            elif v.op == 'mu':
+                alts += gamma_paths(v.args[0])
+            return alts
+
+        def estep_of(leaf):
+            leaf = strip_views(leaf)
+            if leaf.op == 'unpack' and strip_views(leaf.args[0]).op == 'call':
+                c = strip_views(leaf.args[0])
+                nm = call_parts(c)[0] or ''
+                if nm.startswith('method:') and nm.endswith('predict'):
+                    return c, leaf.args[1]
+            return None
+        bad = ''
+        for ca_, la in start_paths(aff):
+            ea = estep_of(la)
+            if ea is None:
+                continue
+            for cq_, lq in start_paths(qf):
+                if not compatible(ca_, cq_):
+                    continue
+                eq = estep_of(lq)
+                if eq is None or eq[0] is not ea[0] or (ea[1], eq[1]) != (0, 1):
+                    bad = (f'on the path where the start affiliation is the posterior of `{norm_stmt(ea[0].node)[:70]}` the start quadratic form is '
+                           f'`{norm_stmt(strip_views(lq).node)[:50]}`, not the quadratic form of that E-step')
+        run.check(not bad, 'R-LOOP', f'{short}: a start posterior taken from a model comes with that model\'s quadratic form', fn.loc(), '', bad,
+                  construct=f'R-LOOP::{fn.qual}::start-pairing')
     run.floor('cACG-based EM loops', n, 3)
 
 
